@@ -4,6 +4,7 @@ package main
 
 import (
 	"bufio"
+	"encoding/base64"
 	"flag"
 	"fmt"
 	"os"
@@ -60,10 +61,28 @@ func main() {
 			os.Exit(2)
 		}
 
+		opt.Override = map[string][]byte{}
+
 		sc := bufio.NewScanner(f)
+		sc.Buffer(make([]byte, 1<<20), 1<<26)
+
 		for sc.Scan() {
-			if id := strings.TrimSpace(sc.Text()); id != "" {
-				opt.Only[id] = true
+			// one input per line: <id> or <id>\t<base64 of the exact bytes>
+			id, enc, hasBytes := strings.Cut(strings.TrimSpace(sc.Text()), "\t")
+			if id == "" {
+				continue
+			}
+
+			opt.Only[id] = true
+
+			if hasBytes {
+				b, err := base64.StdEncoding.DecodeString(enc)
+				if err != nil {
+					fmt.Fprintln(os.Stderr, "c19drv: bad input bytes for", id)
+					os.Exit(2)
+				}
+
+				opt.Override[id] = b
 			}
 		}
 
